@@ -8,7 +8,7 @@ COMMON_ASSUME = [
 SOURCE_COMMITS = []
 
 PENDING = "check not built yet in this round (machinery under construction; see DESIGN.md section 4 for the planned generator and oracle)"
-NOT_APPLICABLE = {p: PENDING for p in ["C01","C02","C03","C04","C05","C06","C13","C14","C15","C16","C17","C18","C19"]}
+NOT_APPLICABLE = {p: PENDING for p in ["C01","C02","C03","C04","C05","C06","C14","C15","C16","C17","C18","C19"]}
 
 PROPS = {
     "C07": dict(
@@ -64,5 +64,14 @@ PROPS = {
         level_note="Trusted: the generator's claim that each document has exactly one declaration a conforming HTML/XML processor would honour; mime.ParseMediaType to read the charset parameter back. Labels exclude & ' ` (HTML would reinterpret them) and free-form labels starting with utf-16.",
         rule="html: rapid: [BOM] ws start-tag prologue* declaring-meta tail; xml: ws <?xml version eq q encoding eq q [standalone] ?> tail. Checked through Detect at the drawn limit and through charset.FromHTML/FromXML on the examined header. Non-trivial = label other than utf-8, or a fake/decoy declaration present, or BOM present, or white space around '=' in the XML declaration; distinct by hash(doc,limit).",
         assumptions=COMMON_ASSUME + ["after '<?xml' the generator writes a space (the markup signature requires it); white space is varied everywhere else"],
+    ),
+    "C13": dict(
+        shards=dict(quick=4, thorough=16),
+        floor=dict(quick=5000, thorough=50000),
+        technique="construction-based generation (rapid) of rectangular CSV/TSV tables and NDJSON streams checked at every cut after the second complete line; converse by generated ragged/damaged inputs and by a reference line/field counter and JSON recogniser over arbitrary text",
+        level_text="Exploration: (fwd) generated tables (2-6 columns, 2-8 records, comma or TAB, LF or CRLF, final terminator present or not, bare/quoted/doubled-quote/empty fields, '#' comment lines) and NDJSON streams (2-8 compact values, first an object or array) must keep their type at limit 0 and at EVERY limit from the end of the second complete record line to len+1; (neg) the same documents with one record made ragged, or one NDJSON line damaged, inside the complete-line region must not be reported as that type; (txt) on arbitrary generated text a CSV/TSV verdict implies equal separator counts >= 1 on all complete non-comment lines (judged on quote-free text) and an NDJSON verdict implies the line conditions, using reference oracles. The claim is about every cut position relative to line boundaries, so cuts are enumerated, documents sampled.",
+        level_note="Trusted: the table/stream generators, the reference line splitter (LF-terminated lines are complete in truncated mode) and the relaxed JSON recogniser R. Higher-priority signatures are decided by calling the earlier siblings' detectors and are counted as excluded.",
+        rule="fwd: rapid tables/streams; every limit in {0, len+1, len+7} U [end of 2nd complete record line .. len]; evaluations = (document, limit) pairs; non-trivial document = at least one cut inside a line / on the LF / between CR and LF / limit==len. neg: one ragged record (field added/removed) or one damaged NDJSON line (truncated value, trailing garbage, unbalanced, not JSON) with the limit keeping that line complete; non-trivial = damaged line is not the last line. txt: 1-16 pieces from a CSV/NDJSON-flavoured vocabulary, boundary-biased limits; non-trivial = some line-format check accepted the header. Distinct by hash(doc[,limit]).",
+        assumptions=COMMON_ASSUME + ["records occupy one line (no embedded newlines), as the property states; the CSV line-count oracle is applied to quote-free headers only (quoted acceptances are counted, not judged)"],
     ),
 }
